@@ -3,7 +3,7 @@ import ClaripyProofs.Lemmas.VSA.SetQueries
 import ClaripyProofs.Lemmas.VSA.Lub
 import ClaripyProofs.Lemmas.VSA.AddSub
 import Claripy.VSA.Conc
-import ClaripyProofs.Lemmas.VSA.SetOpsSound4
+import ClaripyProofs.Lemmas.VSA.ValueSetMeet
 /-!
 # C23 — discrete interval sets and region value sets are sound abstractions
 
@@ -242,11 +242,16 @@ theorem C23_valueset_union_meet (w : Nat) (v : VS) (region : String) (x : Nat) :
    fun b r hv hb h hx => vs_unionVS w v b r hv hb h region x hx,
    fun b v' hv hb h hx hbx => vs_meetSI w v v' b hv hb h region x hx hbx⟩
 
-/-- full statement for the intersection of two value sets (keys of a dict are distinct) -/
+/-- the intersection of two value sets keeps, region by region, every offset both operands hold (aligned normal intervals;
+the keys of a dict are distinct; regions of `self` that the operand does not hold are kept by the code — an
+over-approximation) -/
 def C23_valueset_meetVS_full : Prop :=
   ∀ (w : Nat) (v b r : VS), (∀ p, p ∈ v.regions → NEa w p.2) → (∀ p, p ∈ b.regions → NEa w p.2) →
     (b.regions.map (·.1)).Nodup → v.meetVS b = .ok r →
     ∀ region x, v.memAt region x → b.memAt region x → r.memAt region x
+
+theorem C23_valueset_meetVS : C23_valueset_meetVS_full :=
+  fun w v b r hv hb hnd h region x hx hbx => vs_meetVS w v b r hv hb hnd h region x hx hbx
 
 /-- non-vacuity: a set with a wrapping member, joined with / intersected by an interval; a value-set union -/
 example : let a : DSIS := { bits := 4, sis := [SI.new 4 1 14 2, SI.new 4 2 6 8] }
